@@ -6,8 +6,9 @@ proof:           Prop_C14.v over ConfigModel.v — for EVERY schema, decoded fil
 tie 3:           gen/ConfigSchema.v is regenerated from /repo on every run by reflection over hermes.Config and
                  hermes.NewDefaultConfig(); gen/ConfigSchemaCheck.v re-proves over it: field names NoDup, yaml key =
                  field name, every kind one of float/int/text/on-off, default of the field's kind, and the precedence
-                 theorem instantiated at this schema; the token-splitting statements of run.go are checked verbatim
-correspondence:  the REAL readConfig (hermes.VerifReadConfig) on generated (project file, batch line) cases — subsets of
+                 theorem instantiated at this schema (the text of run.go's glue is only reported as INFO, never an obligation)
+correspondence:  the REAL hermes.Run up to the VerifConfig probe right after readConfig (effective Config captured, run ended by a
+                 private panic value) on generated (project file, batch line) cases — subsets of
                  keys in file and/or arguments, duplicates, permuted orders, malformed values (process end observed in a
                  child), unknown keys, junk tokens — every scalar field compared with ConfigModel.read_config in Coq
 oracle:          precedence evaluated directly on the real results (Go harness, strconv as parser), equality of the real
@@ -24,7 +25,7 @@ RULE = ("generated cases: key subsets in file and/or line with probabilities {0,
 TRUSTED = ["gopkg.in/yaml.v3 decoding of the project file (the model starts from the decoded values; exercised with the spellings the generator writes)",
            "strconv.ParseFloat as oracle (results enter the model as a table); strconv.ParseInt modelled (sign, digits, int64 range)",
            "reflect.FieldByName = first field of that name; field names unique (re-proved for the generated schema)",
-           "run.go:37-43 token splitting is replicated verbatim in the harness (not callable); its source text is checked on every run and whole runs exercise it"]
+           "the verif hook VerifConfig (one call after readConfig in Run) hands over the configuration the run really uses"]
 ASSUMPTIONS = ["int is 64 bit (amd64): OverflowInt/OverflowFloat never fire",
                "Dateformat/GroundWaterFrom are integers to the override (enum names only in the file); generated cases keep (Dateformat, EndDate) a valid date pair, "
                "because readConfig converts EndDate and a mismatch panics/aborts outside the configuration logic",
@@ -165,12 +166,12 @@ GEN_THEOREMS = ["schema_names_nodup", "schema_yaml_key_is_field_name", "schema_k
 
 def gen_proofs(ctx):
     broken = []
-    n = len(GEN_THEOREMS) + 1
+    n = len(GEN_THEOREMS)
     done = 0
-    if _cache.get("anchor_ok"):
-        done += 1
-    else:
-        broken.append({"stage": "generate", "what": "hermes/run.go no longer contains the token-splitting statements / the argument-map glue the model mirrors: " + " ".join(ANCHOR) + " ; uses of argValues up to readConfig: %s" % _cache.get("anchor_uses")})
+    # INFO only (never an obligation): does run.go still read like the statements the model cites?  The tie itself is
+    # behavioural: every case goes through the real hermes.Run up to the VerifConfig probe.
+    ctx.extra["glue_text"] = ("run.go token splitting / argument-map glue reads as cited in ConfigModel.v" if _cache.get("anchor_ok") else
+                              "glue text changed (uses of argValues up to readConfig: %s); behavioural tie through the real Run used" % _cache.get("anchor_uses"))
     if not os.path.exists(os.path.join(ctx.gen, "ConfigSchema.v")):
         broken.append({"stage": "generate", "what": "ConfigSchema.v was not generated"})
         return n, done, broken, GEN_THEOREMS
@@ -488,7 +489,7 @@ LEVEL_TEXT = ("Machine-checked proof (Coq) for every schema, project file and ba
               "arguments. The schema is regenerated from the source on every run and the theorems are re-checked at it; the model is "
               "compared with the real readConfig on generated files/lines each run.")
 LEVEL_NOTE = ("Trusted: Coq kernel + vm_compute; yaml.v3 (model starts from decoded values); strconv.ParseFloat as oracle table; the "
-              "harness's verbatim copy of run.go's token splitting (source text checked, whole runs exercise it). Enum-typed keys "
+              "verif hook VerifConfig inside the real Run (token splitting, crop-override parsing, config generation and readConfig all run as shipped). Enum-typed keys "
               "(Dateformat, GroundWaterFrom) are integers to the override. On-off arguments outside the spelling table are ignored "
               "silently (file/default kept) — part of the theorem statement.")
 TECHNIQUE = "Coq proof (induction over entries/tokens, permutation lemmas) + generated schema re-check + correspondence on the real readConfig + whole-run oracle"
